@@ -96,7 +96,11 @@ theorem buildJob_abort_code (E : Engine) (d : Defects) (cx : Ctx) (fuel t : Nat)
   generalize shouldBuild cx fuel t w0 = sb at h
   obtain ⟨o, w⟩ := sb
   cases o with
-  | none => simp at h; exact .inl h.1.symm
+  | none =>
+    simp only at h
+    split at h
+    · simp at h; exact .inl h.1.symm
+    · simp at h
   | some dr =>
     cases dr with
     | cyclic => simp at h; exact .inr h.1.symm
